@@ -433,6 +433,10 @@ def _hstack_params(shapes, axis):
 
     ishape = list(shapes[0])
     ndim = len(ishape)
+    if not -ndim <= axis < ndim:
+        raise ValueError("axis {} is out of range.".format(axis))
+
+    axis = axis % ndim
     idx = shapes[0][axis]
     indices = []
 
@@ -526,6 +530,10 @@ def _vstack_params(shapes, axis):
 
     oshape = list(shapes[0])
     ndim = len(oshape)
+    if not -ndim <= axis < ndim:
+        raise ValueError("axis {} is out of range.".format(axis))
+
+    axis = axis % ndim
     idx = shapes[0][axis]
     indices = []
 
